@@ -45,6 +45,11 @@ def _affine(node, var: str) -> Optional[int]:
         inner = _affine(node.left, var)
         if inner is not None:
             return inner + (node.right.value if isinstance(node.op, ast.Add) else -node.right.value)
+    if isinstance(node, ast.BinOp) and isinstance(node.op, ast.Add) and \
+            isinstance(node.left, ast.Constant) and isinstance(node.left.value, int):
+        inner = _affine(node.right, var)          # c + var
+        if inner is not None:
+            return inner + node.left.value
     return None
 
 
@@ -122,14 +127,15 @@ def numpy_loop(ctx, fi, bounded_expected: bool):
                     post_inc += s2.value.value
         elif isinstance(st, ast.AugAssign) and isinstance(st.target, ast.Name) and st.target.id == v:
             raise AnalysisError(f"{q}: unconditional counter change after the loop")
-    ret = [st for st in node.body if isinstance(st, ast.Return)]
+    from ..model import returned_values
+    ret = [v_ for _, v_ in returned_values(node, top_level_only=True)]
     ret_ok = False
-    if ret and isinstance(ret[-1].value, ast.Subscript) and isinstance(ret[-1].value.slice, ast.Slice):
-        sl = ret[-1].value.slice
-        ret_ok = isinstance(ret[-1].value.value, ast.Name) and ret[-1].value.value.id == buf and \
+    if ret and isinstance(ret[-1], ast.Subscript) and isinstance(ret[-1].slice, ast.Slice):
+        sl = ret[-1].slice
+        ret_ok = isinstance(ret[-1].value, ast.Name) and ret[-1].value.id == buf and \
             sl.lower is None and isinstance(sl.upper, ast.Name) and sl.upper.id == v
     ctx.ob("CAP-1", f"{q}: returns the first <counter> rows of the vector buffer", ret_ok,
-           f"return {ast.unparse(ret[-1].value) if ret else '?'}", fi)
+           f"return {ast.unparse(ret[-1]) if ret else '?'}", fi)
     wrote_before_count = pre_write and wpos < inc_pos and c2 == 1
     ctx.ob("CAP-1", f"{q}: a vector is written before it is counted", wrote_before_count,
            f"row 0 before the loop: {pre_write}; write {buf}[{v}+{c2}] precedes {v} += 1: {wpos < inc_pos}", fi)
@@ -189,6 +195,8 @@ def pivot_pairing(ctx, fi, counter: str = "nchol"):
         if k.op == "tuple" and k.args:
             k = k.args[0]
         m = m_binop(k, "+")
+        if m is not None and is_const(m[0], 1) and m[1].op == "havoc":
+            m = (m[1], m[0])            # 1 + counter
         if m is not None and is_const(m[1], 1) and m[0].op == "havoc":
             cand.append((e, m[0]))
     if len(cand) != 1:
@@ -210,9 +218,11 @@ def pivot_pairing(ctx, fi, counter: str = "nchol"):
         base = strip_wrappers(m_arrcall(den, "sqrt")[0])
     ok_sqrt = base is not None
     if base is not None:
-        ad = m_binop(base, "+")      # an additive regulariser (+ 1e-10) is allowed
+        ad = m_binop(base, "+")      # an additive regulariser (+ 1e-10) is allowed, on either side
         if ad is not None and ad[1].op == "const":
             base = strip_wrappers(ad[0])
+        elif ad is not None and ad[0].op == "const":
+            base = strip_wrappers(ad[1])
     ab = m_arrcall(base, "abs") if base is not None and base.op == "call" else None
     if ab is None and base is not None and base.op == "call" and func_name(base) == "builtins.abs":
         ab = call_parts(base)[1]
@@ -270,7 +280,7 @@ def pivot_pairing(ctx, fi, counter: str = "nchol"):
             def is_upto(sl):
                 if sl.op == "slice" and is_const(sl.args[0], None):
                     up = m_binop(sl.args[1], "+")
-                    return up is not None and up[0] is v and is_const(up[1], 1)
+                    return up is not None and ((up[0] is v and is_const(up[1], 1)) or (up[1] is v and is_const(up[0], 1)))
                 return False
 
             def rows_upto(t):
@@ -352,7 +362,7 @@ def jax_routine(ctx):
     if cv.op == "setitem":
         idx = cv.args[1]
         m = m_binop(idx, "+")
-        okw = m is not None and m[0] is x and is_const(m[1], 1)
+        okw = m is not None and ((m[0] is x and is_const(m[1], 1)) or (m[1] is x and is_const(m[0], 1)))
         whyw = f"writes row {show(idx)}"
     ctx.ob("CAP-1", f"{q}: iteration x writes row x + 1 (rows 1 .. nchol_max - 1)", okw, whyw, fi)
     # reads: Mapprox += chol_vecs[x] * chol_vecs[x]
